@@ -49,6 +49,12 @@ CALLS = [
     ("format", {"select": [{"value": "order"}, {"value": "t.my col"}, {"value": "a"}], "from": "select"}, {"should_quote": "never"}),
     ("parse_mysql", "select a+b-c", {}),
     ("parse", "select a+b-c", {"null": None, "all_columns": "*"}),
+    # a call inside a window frame bound is simplified while the grammar is still matching (windows._to_bound_call): it sees whatever
+    # callback and rename map are installed at that moment
+    ("parse", "select sum(x) over (order by d range between interval 1 day preceding and current row) from t", {}),
+    ("parse", "select sum(x) over (order by d range between interval 1 day preceding and current row) from t", {"calls": "normal_op"}),
+    ("parse", "select sum(x) over (order by d range between interval 1 day preceding and current row) from t", {"fmap": {"interval": "iv", "sum": "total"}}),
+    ("parse_sqlserver", "select sum(x) over (order by d range between interval 1 day preceding and current row) from t", {}),
     # deeply nested input (the interpreter's recursion limit is process-wide state)
     ("parse", "select " + "(" * 75 + "1" + ")" * 75, {}),
     ("parse", "select " + "(" * 160 + "1" + ")" * 160, {}),
